@@ -120,6 +120,19 @@ func (c *Chain) AdvanceBlock(delta time.Duration) (ok bool) {
 	if c.Halt != "" {
 		return false
 	}
+	if !c.advanceBlockRecovered(delta) {
+		return false
+	}
+	c.Blocks++
+	// the hook runs outside the recover: a rapid Fatalf (a panic) raised by an invariant inside
+	// the hook must reach rapid, not be mistaken for a chain halt.
+	if c.BlockHook != nil {
+		c.BlockHook()
+	}
+	return true
+}
+
+func (c *Chain) advanceBlockRecovered(delta time.Duration) (ok bool) {
 	defer func() {
 		if r := recover(); r != nil {
 			c.Halt = fmt.Sprintf("panic in End/BeginBlock leaving height %d: %v\n%s", c.Height(), r, debug.Stack())
@@ -130,10 +143,6 @@ func (c *Chain) AdvanceBlock(delta time.Duration) (ok bool) {
 		c.TS.AdvanceBlock(delta)
 	} else {
 		c.TS.AdvanceBlock()
-	}
-	c.Blocks++
-	if c.BlockHook != nil {
-		c.BlockHook()
 	}
 	return true
 }
